@@ -64,6 +64,7 @@ func c14Isolation(r *core.Run, scheduled bool) {
 	}
 	// client-fp-1 may use everything, client-fp-2 only the r2 keys
 	var reqs []*c14Req
+	encoded := 0
 	var recs []map[string]any
 	var bad []string
 	pgpKeys := openpgp.EntityList{}
@@ -204,6 +205,7 @@ func c14Isolation(r *core.Run, scheduled bool) {
 			key        string
 			think      time.Duration
 			timeout    time.Duration // the caller gives up after this long (0: never)
+			accept     string        // response encodings the caller accepts
 			stampedeAt time.Duration
 		}
 		plans := make([][]plan, nclients)
@@ -219,6 +221,8 @@ func c14Isolation(r *core.Run, scheduled bool) {
 				if t.Chance(1, 2, "no-think") {
 					p.think = 0
 				}
+				// relic's own client asks for snappy; browsers, curl and net/http ask for gzip
+				p.accept = core.Pick(t, "accept-encoding", "", "gzip", "x-snappy-framed", "gzip", "x-snappy-framed, gzip", "gzip, deflate, br")
 				if t.Chance(1, 6, "caller-gives-up") {
 					p.timeout = time.Duration(1+t.Choose(150, "give-up-after")) * 10 * time.Millisecond
 				}
@@ -255,7 +259,7 @@ func c14Isolation(r *core.Run, scheduled bool) {
 						}
 					}
 					rq := &c14Req{ID: base + i, Client: name, Kind: p.kind, Case: p.c, Key: p.key, Ident: ident, Start: w.Since()}
-					rs := reqSpec{Method: "GET", Peer: fmt.Sprintf("192.0.2.%d:4000", c+1), TLS: pki[ident], Timeout: p.timeout}
+					rs := reqSpec{Method: "GET", Peer: fmt.Sprintf("192.0.2.%d:4000", c+1), TLS: pki[ident], Timeout: p.timeout, AcceptEncoding: p.accept}
 					rq.Timeout = p.timeout
 					switch p.kind {
 					case "sign":
@@ -286,6 +290,11 @@ func c14Isolation(r *core.Run, scheduled bool) {
 					}
 					resp := serve(h, rs)
 					rq.Status, rq.Body, rq.CType, rq.End = resp.Code, resp.Body, resp.Header.Get("Content-Type"), w.Since()
+					if resp.DecodeErr != "" {
+						rq.Verify = fmt.Sprintf("response declared Content-Encoding %q but does not decode: %s", resp.Header.Get("Content-Encoding"), resp.DecodeErr)
+					} else if ce := resp.Header.Get("Content-Encoding"); ce != "" && ce != "identity" {
+						encoded++
+					}
 					if scheduled {
 						w.Logf("%s #%d %s %s key=%s -> %d", name, rq.ID, p.kind, p.c.Mod, p.key, rq.Status)
 					}
@@ -352,10 +361,17 @@ func c14Isolation(r *core.Run, scheduled bool) {
 		r.Probe("overlapping-requests")
 	}
 	r.Sample = map[string]any{"clients": nclients, "requests": len(reqs), "overlapping_pairs": overlap, "cache_s": cacheS, "rate_limit": rateLimit, "scheduled": scheduled}
+	if encoded > 0 {
+		r.Probe("compressed-responses")
+	}
 	for _, rq := range reqs {
 		r.Evals++
 		c := rq.Case
 		ok := rq.Status >= 200 && rq.Status < 300
+		if rq.Verify != "" {
+			r.Failf("C14.mixed-up-response", "encoding/"+rq.Kind, "%s: #%d by %s: %s %s -> %d", rq.Verify, rq.ID, rq.Client, rq.Kind, c.Mod, rq.Status)
+			continue
+		}
 		desc := fmt.Sprintf("#%d by %s(%s): %s %s key=%s digest=%s flags=%v file=%s -> %d", rq.ID, rq.Client, rq.Ident, rq.Kind, c.Mod, rq.Key, c.Digest, c.Flags, c.File, rq.Status)
 		switch rq.Kind {
 		case "health":
